@@ -196,3 +196,55 @@ func injectGarbage(w *World, sc Scenario, rng *rand.Rand, getSrv func() *kcp.UDP
 		}
 	}
 }
+
+// sealOOB builds an out-of-band datagram as the session sending from src to dst would (README frame layout: FEC header with
+// sequence id 0xffffffff and type 0xF3, 16-bit size = payload + 2, conversation id, message), sealed with the REFERENCE cipher.
+func (m *Monitor) sealOOB(rng *rand.Rand, src, dst string, conv uint32, msg []byte) []byte {
+	m.mu.Lock()
+	ep := m.eps[flow(src, dst)]
+	m.mu.Unlock()
+	if ep == nil || ep.d == 0 {
+		return nil
+	}
+	plain := make([]byte, 8+4+len(msg))
+	binary.LittleEndian.PutUint32(plain, 0xffffffff)
+	binary.LittleEndian.PutUint16(plain[4:], 0xf3)
+	binary.LittleEndian.PutUint16(plain[6:], uint16(4+len(msg)+2))
+	binary.LittleEndian.PutUint32(plain[8:], conv)
+	copy(plain[12:], msg)
+	switch ep.suite.Kind {
+	case "nil":
+		return plain
+	case "aead":
+		nonce := make([]byte, ep.aead.NonceSize())
+		rng.Read(nonce)
+		return ep.aead.Seal(nonce, nonce, plain, nil)
+	default:
+		pkt := make([]byte, 20+len(plain))
+		rng.Read(pkt[:16])
+		copy(pkt[20:], plain)
+		binary.LittleEndian.PutUint32(pkt[16:], crc32.ChecksumIEEE(pkt[20:]))
+		out := make([]byte, len(pkt))
+		ep.suite.RefEnc(key32[:ep.suite.KeyLen], out, pkt)
+		return out
+	}
+}
+
+// injectForeignOOB (C19 "never to another session"): after the transfer, well-formed out-of-band datagrams that belong to ANOTHER
+// conversation between the same two addresses (a previous incarnation on the same address pair, a second conversation sharing the
+// socket) arrive at the dialled session. None of them may reach this conversation's handler (the handler logs "oobrecv" with
+// known=false for a payload its peer never sent). The listener side is covered by the routing traces of C11: there a foreign
+// conversation id on an out-of-band datagram starts a new conversation, like any first packet with sn = 0.
+func injectForeignOOB(w *World, rng *rand.Rand, conv uint32) {
+	for i := 0; i < 6; i++ {
+		msg := []byte(fmt.Sprintf("foreign-oob-%d-%d", i, rng.Intn(1000)))
+		if i%3 == 2 {
+			msg = msg[:rng.Intn(3)] // very short messages, too
+		}
+		if dg := w.Mon.sealOOB(rng, srvAddr, cliAddr, conv+1+uint32(i), msg); dg != nil {
+			w.Env.Hub.Inject(srvAddr, cliAddr, dg)
+			w.Ev(map[string]any{"ev": "ooinject", "to": "cli", "conv": int(conv) + 1 + i, "len": len(msg)})
+		}
+	}
+	time.Sleep(50 * time.Millisecond)
+}
